@@ -11,9 +11,10 @@
    nesting, every interrupt point). Corr/C11.v makes this very transition system replay the
    log observed on the implementation ([drive], [drive_sound]) and compares what it
    computes with what was observed. *)
-From Eino Require Import Base.Util Model.StateLock Model.StateLockLTS Model.StateLockDrive.
+From Eino Require Import Base.Util Model.StateLock Model.StateLockLTS Model.StateLockDrive Model.StateLockType.
 From Eino Require Import Proofs.StateLockLTS Proofs.StateLockVal Proofs.StateLockOrder Proofs.StateLockFlow
-  Proofs.StateLockOwn Proofs.StateLockAcq Proofs.StateLockNest Proofs.StateLockLive Proofs.StateLockDrive Proofs.StateLock.
+  Proofs.StateLockOwn Proofs.StateLockAcq Proofs.StateLockNest Proofs.StateLockLive Proofs.StateLockDrive Proofs.StateLock
+  Proofs.StateLockType.
 From Coq Require Import Permutation Sorted.
 Open Scope N_scope.
 
@@ -172,6 +173,36 @@ Theorem fresh_state_per_run_and_nesting :
   c_gens c = flat_map (ogen S) (c_objs c).
 Proof. exact fresh_state_preach. Qed.
 
+(* which state a handler / a ProcessState call finds (compose/state.go getState), and of which
+   type (compose/graph.go AddNode's checks): in a forest that is a tree of nested graphs
+   ([nest_ok], evaluated on every case) every graph instance sees no object if no enclosing
+   graph declares state, otherwise an object that was made - through any number of resumes -
+   by the generator of the NEAREST enclosing graph that declares state ([owner_of]); hence in a
+   program AddNode accepts ([build_err_t] = false) a node with a state handler always finds
+   the state of its own graph, which has the type the handler is written for, and when
+   [must_fail_t] = false every ProcessState call finds a state of the type it is written for:
+   neither "have not set state" nor "unexpected state type" can happen, in any interleaving,
+   nesting or after any resume *)
+Theorem state_lookup_well_typed :
+  forall (S X : Type) (gen : nat -> S) (hfun : kind -> N -> X -> S -> X * S) (lout : N -> X -> X)
+         (mrg : list X -> X) (f : forest) (x0 : X) (c : config S X) (gty : list N) (nty : typing),
+  preach S X gen hfun lout mrg f x0 c -> nest_ok f = true ->
+  (forall i J, nth_error (c_insts c) i = Some J ->
+     match owner_of f (i_graph J) with
+     | None => i_obj J = None
+     | Some og => exists o, i_obj J = Some o /\
+                            forall fuel, (o < fuel)%nat -> obj_root fuel (c_objs c) o = Some og
+     end) /\
+  (build_err_t f gty nty = false ->
+   forall i J G a, nth_error (c_insts c) i = Some J -> nth_error f (i_graph J) = Some G -> In a (g_nodes G) ->
+     (n_pre a = true -> owner_of f (i_graph J) = Some (i_graph J) /\ t_pre nty a = gty_of gty (i_graph J)) /\
+     (n_post a = true -> owner_of f (i_graph J) = Some (i_graph J) /\ t_post nty a = gty_of gty (i_graph J))) /\
+  (must_fail_t f gty nty = false ->
+   forall i J G a, nth_error (c_insts c) i = Some J -> nth_error f (i_graph J) = Some G -> In a (g_nodes G) ->
+     n_sub a = None -> (0 < n_ps a)%nat ->
+     exists og, owner_of f (i_graph J) = Some og /\ t_ps nty a = gty_of gty og).
+Proof. exact state_lookup_well_typed_preach. Qed.
+
 (* the state is carried unchanged, apart from the caller's modifier, across interrupt and
    resume: the object made at resume starts from m applied to the fold of everything that
    happened to the old object, nobody sees the old object again, and what happens after
@@ -235,6 +266,7 @@ Print Assumptions nested_between.
 Print Assumptions handler_values_flow.
 Print Assumptions fresh_state_per_run_and_nesting.
 Print Assumptions state_survives_resume.
+Print Assumptions state_lookup_well_typed.
 Print Assumptions cs_counts_once.
 Print Assumptions final_counters.
 Print Assumptions no_lost_update_without_lock_refuted.
@@ -335,6 +367,19 @@ Example ex_resume : ex_preach ex_resumed /\
                  match o_origin r with OGen _ => 0 | OResumed o _ => 1 + N.of_nat o end)) (c_objs ex_resumed)
   = [(1%Z, 0%Z, 0); (100002%Z, 100001%Z, 1)].
 Proof. split; [apply ex_resumed_preach|]. vm_compute. reflexivity. Qed.
+
+(* state_lookup_well_typed: the example forest (graph 0 declares state, the nested graph 1 does
+   not) is a tree, passes the checks with both graphs typed 0, the nested graph's nodes see the
+   state of graph 0, also after a resume; a handler on the stateless nested graph is refused,
+   a ProcessState call for another type must fail *)
+Example ex_typed :
+  nest_ok ex_forest = true /\ build_err_t ex_forest [0; 0] [] = false /\ must_fail_t ex_forest [0; 0] [] = false /\
+  owner_of ex_forest 1%nat = Some 0%nat /\
+  lookup_ok ex_forest ex_final = true /\ lookup_ok ex_forest ex_resumed = true /\
+  obj_root 2 (c_objs ex_resumed) 1 = Some 0%nat /\
+  must_fail_t ex_forest [0; 0] [(5, (0, (0, 1)))] = true /\
+  build_err_t ex_forest [0; 0] [(1, (1, (0, 0)))] = true.
+Proof. vm_compute. repeat split; reflexivity. Qed.
 
 (* drive: replaying the log of the interleaved example run reproduces that run's log, values
    and final state (the replay accepts what the system itself produces) *)
